@@ -1008,7 +1008,7 @@ func (dc *ClientDnsConnection) SendAndReceive(chunk *util.Packet) error {
 
 	for i := 1; i <= 5; i++ {
 		timeout := time.Duration(i) * time.Second
-		if resp, err := dc.Query(req, timeout); err == smux.ErrTimeout {
+		if resp, err := dc.Query(req, timeout); isTimeout(err) {
 			if i == 5 {
 				return err
 			} else {
@@ -1031,6 +1031,18 @@ func (dc *ClientDnsConnection) SendAndReceive(chunk *util.Packet) error {
 		}
 	}
 	return nil
+}
+
+// isTimeout tells if the exchange was lost (no answer within the timeout), however the communicator reports it
+func isTimeout(err error) bool {
+	if err == nil {
+		return false
+	}
+	if err == smux.ErrTimeout {
+		return true
+	}
+	var ne net.Error
+	return errors.As(err, &ne) && ne.Timeout()
 }
 
 // outChunkAdded is called whenever a new chunk is created for the outgoing stream
